@@ -14,3 +14,5 @@ INVARIANT SBRGExactOK
 INVARIANT Drift_Diag2
 INVARIANT Drift_Diag1
 INVARIANT Drift_Refusal
+INVARIANT WideStateDiagOK
+INVARIANT Drift_WideStateDiag
